@@ -198,11 +198,13 @@ class CandleManager:
                 prev_candle.timestamp
                 and candles[index].timestamp != prev_candle.timestamp + timeframe
             ):
+                # the raw close: the previous candle may already carry candlestick-converted values
+                prev_close = prev_candle.clean_values.get("close", prev_candle.close)
                 fill_candle = Candle(
-                    open=prev_candle.close,
-                    close=prev_candle.close,
-                    high=prev_candle.close,
-                    low=prev_candle.close,
+                    open=prev_close,
+                    close=prev_close,
+                    high=prev_close,
+                    low=prev_close,
                     volume=0,
                     timestamp=prev_candle.timestamp + timeframe,
                 )
